@@ -346,3 +346,261 @@ pub fn parse_int_contract(s: &str) -> ParseVerdict {
     let canonical = !plus && (digits == "0" || !digits.starts_with('0')) && !(neg && digits == "0");
     if canonical { ParseVerdict::Some(v as i64) } else { ParseVerdict::Either(v as i64) }
 }
+
+/* ------------------------- operations by host name ------------------------ */
+
+/// A host-level value as the model sees it.  Thunks / closures / continuations are opaque: the model
+/// only ever *selects* one of them by argument position.
+#[derive(Clone, Debug, PartialEq)]
+pub enum HV {
+    Int(IntTy, i128),
+    F64(u64),
+    F32(u32),
+    Str(String),
+    Char(char),
+    Unit,
+    Opaque,
+}
+
+#[derive(Clone, Debug, PartialEq)]
+pub enum HOut {
+    /// continue with a result value
+    Ret(HV),
+    /// force the thunk that was passed as argument number `.0`, applied to the given values
+    Select(usize, Vec<HV>),
+    Exit(i32),
+    /// integer division or remainder by zero
+    Trap,
+    /// the contract leaves the outcome open (grey zone): no obligation
+    Undetermined(String),
+}
+
+pub struct HostIo<'s> {
+    pub stdin: &'s [u8],
+    pub pos: usize,
+    pub out: Vec<u8>,
+}
+
+impl<'s> HostIo<'s> {
+    pub fn new(stdin: &'s [u8]) -> Self {
+        HostIo { stdin, pos: 0, out: vec![] }
+    }
+    /// line discipline of the legacy stdio roles: up to and including '\n'; strip "\n" or "\r\n"
+    pub fn line(&mut self) -> Result<String, String> {
+        let rest = &self.stdin[self.pos..];
+        let end = rest.iter().position(|b| *b == b'\n').map(|i| i + 1).unwrap_or(rest.len());
+        let mut line = rest[..end].to_vec();
+        self.pos += end;
+        if line.last() == Some(&b'\n') {
+            line.pop();
+            if line.last() == Some(&b'\r') {
+                line.pop();
+            }
+        }
+        String::from_utf8(line).map_err(|_| "invalid UTF-8 on stdin (outside the modelled domain)".to_string())
+    }
+}
+
+fn parse_int_ty(name: &str) -> Option<(IntTy, &str)> {
+    for t in INT_TYS {
+        if let Some(rest) = name.strip_prefix(t.pkg()) {
+            if let Some(rest) = rest.strip_prefix('_') {
+                return Some((t, rest));
+            }
+        }
+    }
+    None
+}
+
+/// Arity of a host symbol (number of argument frames it consumes), by host name.
+pub fn host_arity(name: &str) -> Option<usize> {
+    if let Some((_, op)) = parse_int_ty(name) {
+        return match op {
+            | "add" | "sub" | "mul" | "div" | "mod" => Some(2),
+            | "eq_branch" | "lt_branch" | "gt_branch" => Some(4),
+            | "to_string" => Some(1),
+            | _ => None,
+        };
+    }
+    for f in ["float32_", "float64_"] {
+        if let Some(op) = name.strip_prefix(f) {
+            return match op {
+                | "add" | "sub" | "mul" | "div" => Some(2),
+                | "eq_branch" | "lt_branch" | "gt_branch" => Some(4),
+                | "to_string" => Some(1),
+                | _ => None,
+            };
+        }
+    }
+    Some(match name {
+        | "str_scalar_length" | "str_byte_length" | "char_to_str" | "char_codepoint" | "read_line" | "exit"
+        | "read_till_eof" => 1,
+        | "str_append" | "write_str" | "write_line" | "write_int" | "read_line_as_int_branch" => 2,
+        | "char_from_codepoint_branch" | "str_parse_int_branch" => 3,
+        | "str_eq_branch" | "str_get_branch" | "str_split_at_branch" | "str_split_once_branch" => 4,
+        | _ => return None,
+    })
+}
+
+/// The model of one host operation, addressed by its host symbol name.
+pub fn host_call(name: &str, args: &[HV], io: &mut HostIo) -> Result<HOut, String> {
+    let int = |i: usize| match args.get(i) {
+        | Some(HV::Int(_, n)) => Ok(*n),
+        | o => Err(format!("host {name}: argument {i} should be an integer, got {o:?}")),
+    };
+    let int_at = |i: usize, t: IntTy| match args.get(i) {
+        | Some(HV::Int(t2, n)) if *t2 == t => Ok(*n),
+        | o => Err(format!("host {name}: argument {i} should be {t:?}, got {o:?}")),
+    };
+    let st = |i: usize| match args.get(i) {
+        | Some(HV::Str(s)) => Ok(s.clone()),
+        | o => Err(format!("host {name}: argument {i} should be a string, got {o:?}")),
+    };
+    let f64a = |i: usize| match args.get(i) {
+        | Some(HV::F64(b)) => Ok(*b),
+        | o => Err(format!("host {name}: argument {i} should be Float64, got {o:?}")),
+    };
+    let f32a = |i: usize| match args.get(i) {
+        | Some(HV::F32(b)) => Ok(*b),
+        | o => Err(format!("host {name}: argument {i} should be Float32, got {o:?}")),
+    };
+    let ch = |i: usize| match args.get(i) {
+        | Some(HV::Char(c)) => Ok(*c),
+        | o => Err(format!("host {name}: argument {i} should be a char, got {o:?}")),
+    };
+    let opaque = |i: usize| match args.get(i) {
+        | Some(HV::Opaque) => Ok(()),
+        | o => Err(format!("host {name}: argument {i} should be a thunk, got {o:?}")),
+    };
+    let i64v = |n: i128| HV::Int(IntTy::I64, n);
+    if let Some(n) = host_arity(name) {
+        if args.len() != n {
+            return Err(format!("host {name}: expected {n} arguments, got {}", args.len()));
+        }
+    }
+    if let Some((t, op)) = parse_int_ty(name) {
+        let arith = |o: Arith| -> Result<HOut, String> {
+            Ok(match int_arith(t, o, int_at(0, t)?, int_at(1, t)?) {
+                | Some(r) => HOut::Ret(HV::Int(t, r)),
+                | None => HOut::Trap,
+            })
+        };
+        let cmp = |o: Cmp| -> Result<HOut, String> {
+            opaque(2)?;
+            opaque(3)?;
+            Ok(HOut::Select(if int_cmp(o, int_at(0, t)?, int_at(1, t)?) { 2 } else { 3 }, vec![]))
+        };
+        return match op {
+            | "add" => arith(Arith::Add),
+            | "sub" => arith(Arith::Sub),
+            | "mul" => arith(Arith::Mul),
+            | "div" => arith(Arith::Div),
+            | "mod" => arith(Arith::Mod),
+            | "eq_branch" => cmp(Cmp::Eq),
+            | "lt_branch" => cmp(Cmp::Lt),
+            | "gt_branch" => cmp(Cmp::Gt),
+            | "to_string" => Ok(HOut::Ret(HV::Str(int_to_string(int_at(0, t)?)))),
+            | _ => Err(format!("unknown host operation {name}")),
+        };
+    }
+    if let Some(op) = name.strip_prefix("float64_") {
+        let ar = |o: FArith| -> Result<HOut, String> { Ok(HOut::Ret(HV::F64(f64_arith(o, f64a(0)?, f64a(1)?)))) };
+        let cm = |o: Cmp| -> Result<HOut, String> {
+            Ok(HOut::Select(if f64_cmp(o, f64a(0)?, f64a(1)?) { 2 } else { 3 }, vec![]))
+        };
+        return match op {
+            | "add" => ar(FArith::Add),
+            | "sub" => ar(FArith::Sub),
+            | "mul" => ar(FArith::Mul),
+            | "div" => ar(FArith::Div),
+            | "eq_branch" => cm(Cmp::Eq),
+            | "lt_branch" => cm(Cmp::Lt),
+            | "gt_branch" => cm(Cmp::Gt),
+            | "to_string" => Ok(HOut::Undetermined("float rendering has many valid spellings".into())),
+            | _ => Err(format!("unknown host operation {name}")),
+        };
+    }
+    if let Some(op) = name.strip_prefix("float32_") {
+        let ar = |o: FArith| -> Result<HOut, String> { Ok(HOut::Ret(HV::F32(f32_arith(o, f32a(0)?, f32a(1)?)))) };
+        let cm = |o: Cmp| -> Result<HOut, String> {
+            Ok(HOut::Select(if f32_cmp(o, f32a(0)?, f32a(1)?) { 2 } else { 3 }, vec![]))
+        };
+        return match op {
+            | "add" => ar(FArith::Add),
+            | "sub" => ar(FArith::Sub),
+            | "mul" => ar(FArith::Mul),
+            | "div" => ar(FArith::Div),
+            | "eq_branch" => cm(Cmp::Eq),
+            | "lt_branch" => cm(Cmp::Lt),
+            | "gt_branch" => cm(Cmp::Gt),
+            | "to_string" => Ok(HOut::Undetermined("float rendering has many valid spellings".into())),
+            | _ => Err(format!("unknown host operation {name}")),
+        };
+    }
+    Ok(match name {
+        | "str_scalar_length" => HOut::Ret(i64v(str_scalar_len(&st(0)?))),
+        | "str_byte_length" => HOut::Ret(i64v(str_byte_len(&st(0)?))),
+        | "str_append" => {
+            let mut s = st(0)?;
+            s.push_str(&st(1)?);
+            HOut::Ret(HV::Str(s))
+        }
+        | "str_eq_branch" => HOut::Select(if st(0)? == st(1)? { 2 } else { 3 }, vec![]),
+        | "str_get_branch" => match str_get(&st(0)?, int(1)?) {
+            | None => HOut::Select(2, vec![]),
+            | Some(c) => HOut::Select(3, vec![HV::Char(c)]),
+        },
+        | "str_split_at_branch" => match str_split_at(&st(0)?, int(1)?) {
+            | None => HOut::Select(2, vec![]),
+            | Some((a, b)) => HOut::Select(3, vec![HV::Str(a), HV::Str(b)]),
+        },
+        | "str_split_once_branch" => match str_split_once(&st(0)?, ch(1)?) {
+            | None => HOut::Select(2, vec![]),
+            | Some((a, b)) => HOut::Select(3, vec![HV::Str(a), HV::Str(b)]),
+        },
+        | "char_to_str" => HOut::Ret(HV::Str(ch(0)?.to_string())),
+        | "char_codepoint" => HOut::Ret(i64v(ch(0)? as u32 as i128)),
+        | "char_from_codepoint_branch" => match char_from_codepoint(int(0)?) {
+            | None => HOut::Select(1, vec![]),
+            | Some(c) => HOut::Select(2, vec![HV::Char(c)]),
+        },
+        | "str_parse_int_branch" => match parse_int_contract(&st(0)?) {
+            | ParseVerdict::None => HOut::Select(1, vec![]),
+            | ParseVerdict::Some(n) => HOut::Select(2, vec![i64v(n as i128)]),
+            | ParseVerdict::Either(_) => HOut::Undetermined("parse_int on a non-canonical numeral".into()),
+        },
+        | "write_line" => {
+            io.out.extend_from_slice(st(0)?.as_bytes());
+            io.out.push(b'\n');
+            HOut::Select(1, vec![])
+        }
+        | "write_str" => {
+            io.out.extend_from_slice(st(0)?.as_bytes());
+            HOut::Select(1, vec![])
+        }
+        | "write_int" => {
+            io.out.extend_from_slice(int_to_string(int(0)?).as_bytes());
+            HOut::Select(1, vec![])
+        }
+        | "read_line" => {
+            let line = io.line()?;
+            HOut::Select(0, vec![HV::Str(line)])
+        }
+        | "read_till_eof" => {
+            let rest = io.stdin[io.pos..].to_vec();
+            io.pos = io.stdin.len();
+            let s = String::from_utf8(rest).map_err(|_| "invalid UTF-8 on stdin".to_string())?;
+            HOut::Select(0, vec![HV::Str(s)])
+        }
+        | "read_line_as_int_branch" => {
+            let line = io.line()?;
+            match parse_int_contract(&line) {
+                | ParseVerdict::None => HOut::Select(0, vec![]),
+                | ParseVerdict::Some(n) => HOut::Select(1, vec![i64v(n as i128)]),
+                | ParseVerdict::Either(_) => HOut::Undetermined("read_int on a non-canonical numeral".into()),
+            }
+        }
+        | "exit" => HOut::Exit(int(0)? as i64 as i32),
+        | other => return Err(format!("host operation {other} is outside the model used by generated programs")),
+    })
+}
